@@ -44,7 +44,40 @@ class Unsupported(Exception):
 
 
 def ident(n):
+    if n == '_':
+        return 'u_'          # `_` is a hole in Lean terms
     return n + '_' if n in RESERVED else n
+
+
+class ClassInfo:
+    """a translated class: an instance is `tup (str name :: fields)`; fields = the simple class-level assignments in
+    order, then every other `self.attr` the methods assign, in textual order"""
+
+    def __init__(self, cd, prefix):
+        self.node = cd
+        self.name = cd.name
+        self.lname = f"{prefix}_{cd.name}"        # Lean names: <prefix>_<Class>_<method>
+        self.fields = []
+        self.defaults = {}
+        self.methods = {}
+        self.meth_info = {}      # method name -> {'fuel': bool, 'mutated': [...]} once it has been translated
+        for st in cd.body:
+            if isinstance(st, ast.Assign) and len(st.targets) == 1 and isinstance(st.targets[0], ast.Name):
+                self.fields.append(st.targets[0].id)
+                self.defaults[st.targets[0].id] = st.value
+            elif isinstance(st, ast.FunctionDef):
+                self.methods[st.name] = st
+        for m in self.methods.values():
+            for x in sorted((x for x in ast.walk(m) if isinstance(x, ast.Attribute)), key=lambda x: (x.lineno, x.col_offset)):
+                if isinstance(x.value, ast.Name) and x.value.id == 'self' and isinstance(x.ctx, ast.Store) \
+                        and x.attr not in self.fields:
+                    self.fields.append(x.attr)
+
+    def index(self, attr):
+        return self.fields.index(attr) + 1
+
+    def lean_name(self, method):
+        return f"{self.lname}_init" if method == '__init__' else f"{self.lname}_{method}"
 
 
 def rat(fr):
@@ -79,12 +112,34 @@ class FnTr:
     STR_METHODS = {'strip': (0, 'str_strip'), 'lower': (0, 'str_lower'), 'replace': (2, 'str_replace'),
                    'join': (1, 'str_join'), 'startswith': (1, 'str_startswith'), 'endswith': (1, 'str_endswith')}
 
-    def __init__(self, fn, known, consts=None):
+    MUT_METHODS = {'add': (1, 'set_add'), 'append': (1, 'list_append'), 'remove': (1, 'list_remove'),
+                   'insert': (2, 'list_insert')}
+
+    def __init__(self, fn, known, consts=None, cls=None, classes=None):
         """known: dict short name -> ast.FunctionDef of every translated function (for defaults).
-        consts: module-level `NAME = literal` assignments of the function's module (inlined)."""
+        consts: module-level `NAME = literal` assignments of the function's module (inlined).
+        cls / classes: the ClassInfo this method belongs to / every translated class (attribute and method lookup)."""
         self.fn = fn
         self.known = known
         self.consts = consts or {}
+        self.cls = cls
+        self.classes = classes or {}
+        self.lname = cls.lean_name(fn.name) if cls else fn.name
+        self.is_init = cls is not None and fn.name == '__init__'
+        # units that mention `math.inf` compare with the extended operators (Py.ltE …, Py.minE, Py.maxE)
+        unit = cls.node if cls else fn
+        self.ext = any(isinstance(x, ast.Attribute) and x.attr == 'inf' and isinstance(x.value, ast.Name)
+                       and x.value.id == 'math' for x in ast.walk(unit))
+        # direct recursion: `Cls(...)` inside `Cls.__init__`, `x.m(...)` inside method `m`
+        self.is_rec = False
+        if cls is not None:
+            for x in ast.walk(fn):
+                if isinstance(x, ast.Call):
+                    if self.is_init and isinstance(x.func, ast.Name) and x.func.id == cls.name:
+                        self.is_rec = True
+                    if not self.is_init and isinstance(x.func, ast.Attribute) and x.func.attr == fn.name:
+                        self.is_rec = True
+        self.nfv = 0
         self.deps = []
         self.mutated = []    # parameters updated in place (returned alongside the return value)
         self.storable = set()
@@ -92,8 +147,14 @@ class FnTr:
         self.loops = []      # stack of enclosing loops while a loop function is being generated
         self.nloops = 0
         self.has_fuel = any(isinstance(x, ast.While) for x in ast.walk(fn))
+        if self.is_rec:
+            if self.has_fuel:
+                raise Unsupported("recursion together with a while loop")
+            self.has_fuel = True     # a recursive function runs on fuel too: results are `Py.Out`
         # every name of the function in textual order (parameters first): fixes the parameter order of loop functions
         self.order = [ident(a.arg) for a in fn.args.args]
+        if self.is_init:
+            self.order = [x for x in self.order if x != 'self'] + ['self']
         for x in sorted((x for x in ast.walk(fn) if isinstance(x, ast.Name)), key=lambda x: (x.lineno, x.col_offset)):
             if ident(x.id) not in self.order:
                 self.order.append(ident(x.id))
@@ -138,7 +199,16 @@ class FnTr:
                 else:
                     raise Unsupported("f-string part")
             return "(Py.fjoin [" + ", ".join(parts) + "])"
+        if isinstance(e, ast.Attribute):
+            if isinstance(e.value, ast.Name) and e.value.id == 'math' and e.attr == 'inf' and 'math' not in self.defined:
+                return "Py.posInf"
+            return f"(Py.getItem {self.val(e.value)} {self.attr_index(e)})"
+        if isinstance(e, ast.ListComp):
+            return self.comprehension(e, out=False)
         if isinstance(e, ast.UnaryOp):
+            if isinstance(e.op, ast.USub) and isinstance(e.operand, ast.Attribute) and e.operand.attr == 'inf' \
+                    and isinstance(e.operand.value, ast.Name) and e.operand.value.id == 'math':
+                return "Py.negInf"
             if isinstance(e.op, ast.USub):
                 if isinstance(e.operand, ast.Constant) and isinstance(e.operand.value, int) \
                         and not isinstance(e.operand.value, bool):
@@ -182,6 +252,63 @@ class FnTr:
             return self.call(e)
         raise Unsupported(f"expr {type(e).__name__}")
 
+    def attr_index(self, e):
+        """position of `e.attr` in the instance tuple: by the class of `self`, else by the unique translated class that
+        has a field of that name"""
+        if isinstance(e.value, ast.Name) and e.value.id == 'self' and self.cls and e.attr in self.cls.fields:
+            return self.cls.index(e.attr)
+        idx = {c.index(e.attr) for c in self.classes.values() if e.attr in c.fields}
+        if len(idx) == 1:
+            return idx.pop()
+        raise Unsupported(f"attribute {e.attr}")
+
+    def rec_shape(self, e):
+        """is `e` syntactically a direct recursive call?"""
+        if not (self.is_rec and isinstance(e, ast.Call)) or e.keywords:
+            return False
+        if self.is_init:
+            return isinstance(e.func, ast.Name) and e.func.id == self.cls.name
+        return isinstance(e.func, ast.Attribute) and e.func.attr == self.fn.name
+
+    def fuel_shape(self, e):
+        return e is not None and (self.rec_shape(e) or (isinstance(e, ast.ListComp) and self.rec_shape(e.elt)))
+
+    def rec_call(self, e):
+        """argument strings of a direct recursive call, else None"""
+        if not self.rec_shape(e):
+            return None
+        if self.is_init:
+            return [self.val(a) for a in e.args]
+        return [self.val(e.func.value)] + [self.val(a) for a in e.args]
+
+    def fuel_expr(self, e):
+        """a Lean expression of type `Py.Out` for an expression that runs on fuel (a recursive call, or a list
+        comprehension whose element is one), else None"""
+        if self.rec_shape(e):
+            return "(rec_ " + " ".join(self.rec_call(e)) + ")"
+        if isinstance(e, ast.ListComp) and self.rec_shape(e.elt):
+            return self.comprehension(e, out=True)
+        return None
+
+    def comprehension(self, e, out):
+        if len(e.generators) != 1 or e.generators[0].is_async:
+            raise Unsupported("comprehension form")
+        g = e.generators[0]
+        src = self.val(g.iter)
+        self.tmp += 1
+        it = f"it{self.tmp}_"
+        saved = set(self.defined)
+        lets = []
+        self.unpack(g.target, it, '', lets)
+        c = " && ".join(self.cond(x) for x in g.ifs) if g.ifs else None
+        if out:
+            elt = "(rec_ " + " ".join(self.rec_call(e.elt)) + ")"
+        else:
+            elt = self.val(e.elt)
+        self.defined = saved
+        body = f"some {elt}" if c is None else f"if ({c}) then some {elt} else none"
+        return f"(Py.{'compOut' if out else 'comp'} {src} (fun {it} => " + "".join(x + "; " for x in lets) + body + "))"
+
     def fname(self, f):
         if isinstance(f, ast.Name):
             return f.id
@@ -219,8 +346,19 @@ class FnTr:
                     raise Unsupported("format index")
                 parts.append(f"(Py.format_ {self.val(e.args[k])} {lean_str(spec or '')})")
             return "(Py.fjoin [" + ", ".join(parts) + "])"
+        if self.rec_shape(e):
+            raise Unsupported("recursive call in expression position")
         recv = self.val(f.value)
         A = [self.val(x) for x in e.args]
+        if f.attr == 'copy' and not A:
+            return f"(Py.list_copy {recv})"
+        owners = [c for c in self.classes.values() if f.attr in c.methods]
+        if owners:
+            c = owners[0]
+            info = c.meth_info.get(f.attr)
+            if len(owners) > 1 or info is None or info['fuel'] or info['mutated']:
+                raise Unsupported(f"call of method {f.attr} in expression position")
+            return f"({c.lean_name(f.attr)} R prec {recv}" + "".join(" " + a for a in A) + ")"
         if f.attr == 'split':
             if len(A) == 0:
                 return f"(Py.str_split {recv})"
@@ -266,12 +404,22 @@ class FnTr:
                     raise Unsupported(f"missing arg {p}")
             if any(isinstance(x, ast.While) for x in ast.walk(callee)):
                 raise Unsupported(f"call of {short}, which contains a while loop (fuel)")
-            if short not in self.deps and short != self.fn.name:
+            if short not in self.deps and short != self.lname:
                 self.deps.append(short)
             return f"({short} R prec " + " ".join(A) + ")"
         if e.keywords:
             raise Unsupported("keywords on builtin")
+        if self.rec_shape(e):
+            raise Unsupported("recursive call in expression position")
+        if n == 'map' and len(e.args) == 2 and isinstance(e.args[0], ast.Name) and e.args[0].id == 'len':
+            self.tmp += 1
+            return f"(Py.comp {self.val(e.args[1])} (fun it{self.tmp}_ => some (Py.len_ it{self.tmp}_)))"
         A = [self.val(x) for x in e.args]
+        E = 'E' if self.ext else ''
+        if n in ('max', 'min') and len(A) == 1:
+            return f"(Py.{n}Of{E} {A[0]})"
+        if n in ('max', 'min') and len(A) >= 2 and self.ext:
+            return f"(Py.{n}E [" + ", ".join(A) + "])"
         simple = {'int': 'int_', 'float': 'float_', 'abs': 'abs_', 'round': 'round_',
                   'math.floor': 'math_floor', 'math.ceil': 'math_ceil',
                   'mpmath.floor': 'mp_floor', 'mpmath.ceil': 'mp_ceil', 'mpmath.fabs': 'mp_fabs'}
@@ -283,6 +431,10 @@ class FnTr:
             return f"(Py.str_ {A[0]})"
         if n == 'divmod' and len(A) == 2:
             return f"(Py.divmod_ R prec {A[0]} {A[1]})"
+        if n == 'set' and not A:
+            return "(Py.Val.tup [])"
+        if n == 'enumerate' and len(A) == 1:
+            return f"(Py.enumerate_ {A[0]})"
         if n == 'len' and len(A) == 1:
             return f"(Py.len_ {A[0]})"
         if n == 'range' and 1 <= len(A) <= 3:
@@ -333,6 +485,8 @@ class FnTr:
             if isinstance(op, ast.Eq):
                 return f"({self.cond(l)} == {self.cond(r)})"
         names = {ast.Lt: 'lt', ast.LtE: 'le', ast.Gt: 'gt', ast.GtE: 'ge', ast.Eq: 'eq', ast.NotEq: 'ne'}
+        if self.ext and type(op) in (ast.Lt, ast.LtE, ast.Gt, ast.GtE):
+            return f"(Py.{names[type(op)]}E {self.val(l)} {self.val(r)})"
         if type(op) in names:
             return f"(Py.{names[type(op)]} {self.val(l)} {self.val(r)})"
         if isinstance(op, ast.Is) and isinstance(r, ast.Constant) and r.value is None:
@@ -362,6 +516,8 @@ class FnTr:
                 return 'always'     # control leaves the block
             if isinstance(s, (ast.While, ast.For, ast.Assert, ast.Try)):
                 cls = 'maybe'
+            if isinstance(s, (ast.Assign, ast.AugAssign, ast.Return)) and self.fuel_shape(s.value):
+                cls = 'maybe'      # the fuel may run out there
             if isinstance(s, ast.If):
                 a, b = self.ret_class(s.body), self.ret_class(s.orelse)
                 if a == 'always' and b == 'always':
@@ -377,12 +533,19 @@ class FnTr:
         elif isinstance(t, (ast.Tuple, ast.List)):
             for x in t.elts:
                 self.target_names(x, out)
+        elif isinstance(t, ast.Attribute) and isinstance(t.value, ast.Name) and t.value.id == 'self' and self.cls:
+            if 'self' not in out:
+                out.append('self')
         elif isinstance(t, ast.Attribute):
             if 'prec' not in out:
                 out.append('prec')
-        elif isinstance(t, ast.Subscript) and isinstance(t.value, ast.Name):
-            if ident(t.value.id) not in out:    # in-place update of a list = rebinding of the name (value semantics)
-                out.append(ident(t.value.id))
+        elif isinstance(t, ast.Subscript) and self.sub_base(t) is not None:
+            b = ident(self.sub_base(t).id)
+            if b not in out:    # in-place update of a list = rebinding of the name (value semantics)
+                out.append(b)
+        elif isinstance(t, ast.Subscript) and self.path_root(t) == 'self':
+            if 'self' not in out:
+                out.append('self')
         else:
             raise Unsupported("assignment target")
 
@@ -397,6 +560,15 @@ class FnTr:
             elif isinstance(s, ast.Delete):
                 for t in s.targets:
                     self.target_names(t, out)
+            elif isinstance(s, ast.Expr) and self.mut_stmt(s) is not None:
+                r = self.path_root(self.mut_stmt(s)[0])
+                if r is not None and r not in out:
+                    out.append(r)
+            elif isinstance(s, ast.Expr) and self.meth_stmt(s) is not None:
+                c, m, recv = self.meth_stmt(s)
+                r = self.path_root(recv)
+                if c.meth_info.get(m, {}).get('mutated') and r is not None and r not in out:
+                    out.append(r)
             elif isinstance(s, ast.If):
                 for n in self.assigned(s.body) + self.assigned(s.orelse):
                     if n not in out:
@@ -426,8 +598,49 @@ class FnTr:
             lines.append(f"{pad}let {tmp} := Py.unpackN {src} {len(t.elts)}")
             for i, x in enumerate(t.elts):
                 self.unpack(x, f"(Py.getItem {tmp} {i})", pad, lines)
+        elif isinstance(t, ast.Attribute) and self.path_root(t) == 'self':
+            lines.append(pad + self.assign_path(t, src))
         else:
             raise Unsupported("unpack target")
+
+    # ---------- object fields and in-place methods ----------
+    def path_root(self, t):
+        """the variable at the root of an lvalue path `x`, `x[i]…`, `self.a`, `self.a[i]…` (else None)"""
+        while isinstance(t, ast.Subscript):
+            t = t.value
+        if isinstance(t, ast.Name):
+            return ident(t.id)
+        if isinstance(t, ast.Attribute) and isinstance(t.value, ast.Name) and t.value.id == 'self' and self.cls:
+            return 'self'
+        return None
+
+    def assign_path(self, t, v):
+        """`let root := …` that makes the lvalue path `t` hold `v` (value semantics: the spine is rebuilt)"""
+        if isinstance(t, ast.Name):
+            return f"let {ident(t.id)} := {v}"
+        if isinstance(t, ast.Attribute) and self.path_root(t) == 'self':
+            return f"let self := (Py.setField self {self.attr_index(t)} {v})"
+        if isinstance(t, ast.Subscript) and not isinstance(t.slice, (ast.Slice, ast.Tuple)):
+            return self.assign_path(t.value, f"(Py.setItem {self.val(t.value)} {self.val(t.slice)} {v})")
+        raise Unsupported("assignment path")
+
+    def meth_stmt(self, s):
+        """`recv.method(args)` as a statement, for a method of a translated class: (class, method name, receiver)"""
+        c = s.value
+        if isinstance(c, ast.Call) and isinstance(c.func, ast.Attribute) and c.func.attr not in self.MUT_METHODS:
+            owners = [k for k in self.classes.values() if c.func.attr in k.methods]
+            if len(owners) == 1 and self.path_root(c.func.value) is not None:
+                return owners[0], c.func.attr, c.func.value
+        return None
+
+    def mut_stmt(self, s):
+        """`target.add(x)` / `.append(x)` / `.remove(x)` / `.insert(i, x)` as a statement: (target, library function, args)"""
+        c = s.value
+        if isinstance(c, ast.Call) and isinstance(c.func, ast.Attribute) and c.func.attr in self.MUT_METHODS \
+                and not c.keywords and len(c.args) == self.MUT_METHODS[c.func.attr][0] \
+                and self.path_root(c.func.value) is not None:
+            return c.func.value, self.MUT_METHODS[c.func.attr][1], c.args
+        return None
 
     def simple(self, s, ind):
         """translate a non-branching statement to `let` lines"""
@@ -443,7 +656,11 @@ class FnTr:
                             and s.value.value >= 1):
                         raise Unsupported("dps value")
                     return [f"{pad}let prec := Py.dpsToPrec {s.value.value}"]
+                if self.path_root(t) == 'self':
+                    return [pad + self.assign_path(t, self.val(s.value))]
                 raise Unsupported("attribute assign")
+            if isinstance(t, ast.Subscript) and self.path_root(t) == 'self':
+                return [pad + self.assign_path(t, self.val(s.value))]
             if isinstance(t, ast.Subscript):
                 return [pad + self.store(t, self.val(s.value))]
             lines = []
@@ -452,6 +669,23 @@ class FnTr:
             return lines
         if isinstance(s, ast.Delete):
             return [pad + self.store(t, None) for t in s.targets]
+        if isinstance(s, ast.Expr) and self.meth_stmt(s) is not None:
+            c, m, recv = self.meth_stmt(s)
+            info = c.meth_info.get(m)
+            if info is None or info['fuel'] or info['mutated'] not in ([], ['self']) or s.value.keywords:
+                raise Unsupported(f"method call statement {m}")
+            call = f"({c.lean_name(m)} R prec {self.val(recv)}" + "".join(" " + self.val(a) for a in s.value.args) + ")"
+            if not info['mutated']:
+                return []            # no effect on the state kept here
+            return [pad + self.assign_path(recv, f"(Py.getItem {call} 1)")]
+        if isinstance(s, ast.Expr) and self.mut_stmt(s) is not None:
+            t, fn_, args = self.mut_stmt(s)
+            return [pad + self.assign_path(t, f"(Py.{fn_} {self.val(t)}" + "".join(" " + self.val(a) for a in args) + ")")]
+        if isinstance(s, ast.AugAssign) and isinstance(s.target, ast.Attribute) and self.path_root(s.target) == 'self':
+            ops = {ast.Add: 'add', ast.Sub: 'sub', ast.Mult: 'mul', ast.Div: 'truediv'}
+            if type(s.op) not in ops:
+                raise Unsupported("augassign")
+            return [pad + self.assign_path(s.target, f"(Py.{ops[type(s.op)]} R prec {self.val(s.target)} {self.val(s.value)})")]
         if isinstance(s, ast.AugAssign):
             ops = {ast.Add: 'add', ast.Sub: 'sub', ast.Mult: 'mul', ast.Div: 'truediv'}
             bitops = {ast.BitOr: 'bitor', ast.BitAnd: 'bitand', ast.BitXor: 'bitxor'}
@@ -467,10 +701,41 @@ class FnTr:
             return []
         raise Unsupported(f"stmt {type(s).__name__}")
 
+    @staticmethod
+    def sub_base(t):
+        """the Name at the root of a subscript chain `a[i][j]…`, else None"""
+        while isinstance(t, ast.Subscript):
+            t = t.value
+        return t if isinstance(t, ast.Name) else None
+
     def store(self, t, v):
-        """`a[i] = v`, `a[i:j] = v`, `del a[i]`, `del a[i:j]` (v is None) on a list held in a plain name"""
-        if not (isinstance(t, ast.Subscript) and isinstance(t.value, ast.Name)):
+        """`a[i] = v`, `a[i:j] = v`, `del a[i]`, `del a[i:j]` (v is None) on a list held in a plain name; and
+        `a[i]…[k] = v` on nested lists (rebuilds the spine: `a := setItem a i (setItem a[i] … v)`)"""
+        if not (isinstance(t, ast.Subscript) and self.sub_base(t) is not None):
             raise Unsupported("store target")
+        if isinstance(t.value, ast.Subscript):
+            chain = []
+            x = t
+            while isinstance(x, ast.Subscript):
+                if isinstance(x.slice, (ast.Slice, ast.Tuple)):
+                    raise Unsupported("slice inside a nested store")
+                chain.append(x.slice)
+                x = x.value
+            chain.reverse()
+            n = ident(x.id)
+            if n not in self.defined:
+                raise Unsupported("store into undefined name")
+            if n not in self.storable:
+                raise Unsupported(f"in-place update of {n}, which may be aliased")
+            if v is None:
+                raise Unsupported("del on a nested element")
+            idx = [self.val(c) for c in chain]
+
+            def build(base, k):
+                if k == len(idx) - 1:
+                    return f"(Py.setItem {base} {idx[k]} {v})"
+                return f"(Py.setItem {base} {idx[k]} {build(f'(Py.index {base} {idx[k]})', k + 1)})"
+            return f"let {n} := {build(n, 0)}"
         n = ident(t.value.id)
         if n not in self.defined:
             raise Unsupported("store into undefined name")
@@ -500,6 +765,18 @@ class FnTr:
         if not stmts:
             return final(ind)
         s, rest = stmts[0], stmts[1:]
+        if isinstance(s, (ast.Assign, ast.AugAssign, ast.Return)) and s.value is not None:
+            fe = self.fuel_expr(s.value)
+            if fe is not None:
+                if mode != 'ret':
+                    raise Unsupported("call on fuel in joined block")
+                self.nfv += 1
+                fv = f"fv{self.nfv}_"
+                s2 = type(s)(**{k: getattr(s, k) for k in s._fields})
+                s2.value = ast.Name(id=fv, ctx=ast.Load())
+                self.defined.add(fv)
+                return ([f"{pad}match {fe} with", f"{pad}| Py.Out.fuelOut => {self.fuel_out()}", f"{pad}| Py.Out.val {fv} =>"]
+                        + self.seq([s2] + rest, ind + 1, final, mode))
         if isinstance(s, ast.Return):
             if mode != 'ret':
                 raise Unsupported("return in joined block")
@@ -586,6 +863,8 @@ class FnTr:
     def source_ret(self, v):
         """value of a source-level `return v`: a function that mutates list parameters in place (item/slice
         assignment, `del`) returns the tuple (v, final value of each mutated parameter, in parameter order)"""
+        if self.is_init:
+            return "self"         # `Cls(...)` evaluates to the instance
         if not self.mutated:
             return v
         return "(Py.Val.tup [" + ", ".join([v] + self.mutated) + "])"
@@ -621,7 +900,7 @@ class FnTr:
             raise Unsupported("loop else clause")
         is_for = isinstance(s, ast.For)
         self.nloops += 1
-        lname = f"{self.fn.name}_loop{self.nloops}"
+        lname = f"{self.lname}_loop{self.nloops}"
         carried = []
         if is_for:
             self.target_names(s.target, carried)
@@ -641,11 +920,14 @@ class FnTr:
         needs_fuel = any(isinstance(x, ast.While) for x in ast.walk(s))
         envsig = "".join(f" ({v} : Py.Val)" for v in env)
         envargs = "".join(f" {v}" for v in env)
+        if self.is_rec:      # the enclosing function one unit of fuel down
+            envsig += f" (rec_ : {self.rec_type()})"
+            envargs += " rec_"
         cargs = "".join(f" {v}" for v in carried)
         ctuple = "(" + ", ".join(carried) + ")" if carried else "()"
         ctype = " × ".join("Py.Val" for _ in carried) if carried else "Unit"
         # ----- the loop: `<f>_body<k>` is one pass (non-recursive; `k_` is "go round again"), `<f>_loop<k>` iterates it
-        bname = f"{self.fn.name}_body{self.nloops}"
+        bname = f"{self.lname}_body{self.nloops}"
         inner_fuel = any(isinstance(x, ast.While) for b in s.body for x in ast.walk(b))
         saved_defined, saved_loops = self.defined, self.loops
         self.defined = set(env) | set(carried) | {'prec'}
@@ -704,19 +986,39 @@ class FnTr:
         self.defined |= set(carried)
         return lines + self.seq(rest, len(inner) // 2 + 1, final, 'ret')
 
+    def params(self):
+        ps = [ident(a.arg) for a in self.fn.args.args]
+        return ps[1:] if self.is_init else ps
+
+    def rec_type(self):
+        return "Py.Val → " * len(self.params()) + "Py.Out"
+
     def signature(self):
-        params = [ident(a.arg) for a in self.fn.args.args]
-        if self.has_fuel:
-            return (f"def {self.fn.name} (R : Rounding) (ambient : Nat) (fuel : Nat) "
+        params = self.params()
+        if self.is_rec:
+            return (f"def {self.lname}_body (R : Rounding) (ambient : Nat) (rec_ : {self.rec_type()}) "
                     + " ".join(f"({p} : Py.Val)" for p in params) + " : Py.Out :=")
-        return (f"def {self.fn.name} (R : Rounding) (ambient : Nat) "
+        if self.has_fuel:
+            return (f"def {self.lname} (R : Rounding) (ambient : Nat) (fuel : Nat) "
+                    + " ".join(f"({p} : Py.Val)" for p in params) + " : Py.Out :=")
+        return (f"def {self.lname} (R : Rounding) (ambient : Nat) "
                 + " ".join(f"({p} : Py.Val)" for p in params) + " : Py.Val :=")
+
+    def rec_wrapper(self):
+        """the recursive function itself: structural recursion on the fuel around the non-recursive `_body`"""
+        ps = self.params()
+        return "\n".join([
+            f"def {self.lname} (R : Rounding) (ambient : Nat) :",
+            f"    Nat → {'Py.Val → ' * len(ps)}Py.Out",
+            f"  | 0{', _' * len(ps)} => Py.Out.fuelOut",
+            f"  | fuel + 1{''.join(', ' + x for x in ps)} =>",
+            f"    {self.lname}_body R ambient ({self.lname} R ambient fuel){''.join(' ' + x for x in ps)}"])
 
     def translate(self):
         fn = self.fn
         if fn.args.vararg or fn.args.kwarg or fn.args.kwonlyargs or fn.args.posonlyargs:
             raise Unsupported("signature")
-        params = [ident(a.arg) for a in fn.args.args]
+        params = self.params()
         self.defined = set(params) | {'prec'}
         self.tmp = 0
         self.analyse_stores(params)
@@ -724,14 +1026,23 @@ class FnTr:
         if self.ret_class(body) != 'always':
             body = body + [ast.Return(value=None)]
         lines = [self.signature(), "  let prec := ambient"]
+        if self.is_init:
+            self.defined.add('self')
+            saved = self.defined
+            self.defined = set()
+            dflt = [self.val(self.cls.defaults[f]) if f in self.cls.defaults else "Py.Val.none_" for f in self.cls.fields]
+            self.defined = saved
+            lines.append(f"  let self := (Py.Val.tup [(Py.Val.str {lean_str(self.cls.name)})" + "".join(", " + d for d in dflt) + "])")
         lines += self.seq(body, 1, final=lambda i: ['  ' * i + self.wrap_ret(self.source_ret('Py.Val.none_'))], mode='ret')
-        return "\n\n".join(self.aux + ["\n".join(lines)])
+        main = ["\n".join(lines)] + ([self.rec_wrapper()] if self.is_rec else [])
+        return "\n\n".join(self.aux + main)
 
     def analyse_stores(self, params):
         """names updated in place (`a[i] = …`, `del a[i:j]`).  Lists are values here, so such an update is only
         faithful when the list has no second name: every other use of the name must be `a[...]` (indexing or a
         slice, which copies) or `len(a)`; and it must not be the sequence of an enclosing `for`."""
         stored = []
+        depth = {}       # name -> deepest nested store `a[i]…[k] = v` (objects down to depth-1 inside `a` are updated)
         for x in ast.walk(self.fn):
             tg = []
             if isinstance(x, ast.Assign):
@@ -741,6 +1052,16 @@ class FnTr:
             for t in tg:
                 if isinstance(t, ast.Subscript) and isinstance(t.value, ast.Name) and ident(t.value.id) not in stored:
                     stored.append(ident(t.value.id))
+                elif isinstance(t, ast.Subscript) and self.sub_base(t) is not None:
+                    b = ident(self.sub_base(t).id)
+                    d = 0
+                    x = t
+                    while isinstance(x, ast.Subscript):
+                        d += 1
+                        x = x.value
+                    depth[b] = max(depth.get(b, 1), d)
+                    if b not in stored:
+                        stored.append(b)
         ok_use = set()
         for x in ast.walk(self.fn):
             if isinstance(x, ast.Subscript) and isinstance(x.value, ast.Name):
@@ -757,14 +1078,58 @@ class FnTr:
                 for y in ast.walk(x.iter):
                     if isinstance(y, ast.Name) and ident(y.id) in stored:
                         bad.add(ident(y.id))
+        # nested stores update inner lists: no name may be bound to such an inner list, i.e. every `a[i]…` of depth
+        # < depth[a] that is read must itself be subscripted further
+        parent = {}
+        for x in ast.walk(self.fn):
+            for c in ast.iter_child_nodes(x):
+                parent[id(c)] = x
+        for x in ast.walk(self.fn):
+            if isinstance(x, ast.Subscript) and isinstance(x.ctx, ast.Load) and self.sub_base(x) is not None:
+                b = ident(self.sub_base(x).id)
+                if b in depth:
+                    d = 0
+                    y = x
+                    while isinstance(y, ast.Subscript):
+                        d += 1
+                        y = y.value
+                    par = parent.get(id(x))
+                    wrapped = isinstance(par, ast.Subscript) and par.value is x
+                    if d < depth[b] and not wrapped:
+                        bad.add(b)
         self.storable = set(stored) - bad
         self.mutated = [p for p in params if p in stored]
+        if self.cls is not None and not self.is_init:
+            touches_self = any(isinstance(x, ast.Attribute) and isinstance(x.ctx, ast.Store) and self.path_root(x) == 'self'
+                               for x in ast.walk(self.fn)) or \
+                any(isinstance(x, ast.Expr) and self.mut_stmt(x) is not None and self.path_root(self.mut_stmt(x)[0]) == 'self'
+                    for x in ast.walk(self.fn)) or \
+                any(isinstance(x, (ast.Assign, ast.AugAssign)) and isinstance(getattr(x, 'target', None) or x.targets[0], ast.Subscript)
+                    and self.path_root(getattr(x, 'target', None) or x.targets[0]) == 'self' for x in ast.walk(self.fn))
+            if touches_self and 'self' not in self.mutated:
+                self.mutated = ['self'] + self.mutated
 
     def stub(self):
+        if self.is_rec:
+            return self.signature() + "\n  Py.Out.val Py.Val.err\n\n" + self.rec_wrapper()
         return self.signature() + "\n  " + self.wrap_ret("Py.Val.err")
 
 
-# (module file, function name) in dependency order
+def dependency_path(module):
+    """absolute path of the source of an installed dependency (the interpreter that runs the checks has it)"""
+    import importlib.util
+    try:
+        spec = importlib.util.find_spec(module)
+        if spec is not None and spec.origin:
+            return spec.origin
+    except (ImportError, ValueError):
+        pass
+    return '/venv/lib/python3.12/site-packages/' + module.replace('.', '/') + '.py'
+
+
+BEZMISC = dependency_path('ink_extensions.bezmisc')
+
+# (module file, function name) in dependency order; an absolute module path is an installed dependency
 FUNCTIONS = [
     ('ebb_calc.py', 'move_dist_lt'),
     ('ebb_calc.py', 'move_dist_t3'),
@@ -788,19 +1153,29 @@ FUNCTIONS = [
     ('plot_utils.py', 'unitsToUserUnits'),
     ('plot_utils.py', 'userUnitToUnits'),
     ('plot_utils.py', 'vb_scale'),
+    (BEZMISC, 'tpoint'),
+    (BEZMISC, 'beziersplitatt'),
+    ('plot_utils.py', 'subdivideCubicPath'),
+    ('rtree.py', 'Index', 'rtree'),           # a class: (module, class name, Lean name prefix)
+    ('plot_utils.py', 'square_dist'),
+    ('spatial_grid.py', 'Index', 'grid'),
 ]
 
 
 def generate(repo, outdir):
     os.makedirs(outdir, exist_ok=True)
     trees = {}
+    srcs = {}
     fns = {}
     report = {}
-    for mod, name in FUNCTIONS:
-        path = os.path.join(repo, 'plotink', mod)
+    entries = [(e[0], e[1]) for e in FUNCTIONS if len(e) == 2]
+    class_entries = [e for e in FUNCTIONS if len(e) == 3]
+    for mod, name in entries:
+        path = mod if os.path.isabs(mod) else os.path.join(repo, 'plotink', mod)   # absolute: an installed dependency
         if mod not in trees:
             try:
-                trees[mod] = ast.parse(open(path).read())
+                srcs[mod] = open(path).read()
+                trees[mod] = ast.parse(srcs[mod])
             except (SyntaxError, OSError) as ex:
                 trees[mod] = None
                 report[mod] = f"parse error: {ex}"
@@ -812,7 +1187,7 @@ def generate(repo, outdir):
                     fn = n
         fns[name] = fn
     known = {k: v for k, v in fns.items() if v is not None}
-    for mod, name in FUNCTIONS:
+    for mod, name in entries:
         fn = fns[name]
         status = 'ok'
         deps = []
@@ -839,7 +1214,8 @@ def generate(repo, outdir):
                 code = tr2.stub()
                 deps = []
         imports = "import Plotink.Py\n" + "".join(f"import Plotink.Gen.{d}\n" for d in deps)
-        text = (f"-- GENERATED by translator/pynum2lean.py from plotink/{mod}:{name}. Do not edit.\n"
+        origin = mod if os.path.isabs(mod) else f"plotink/{mod}"
+        text = (f"-- GENERATED by translator/pynum2lean.py from {origin}:{name}. Do not edit.\n"
                 + imports + "namespace Plotink\nnamespace Gen\nset_option linter.unusedVariables false\n\n"
                 + code + "\n\nend Gen\nend Plotink\n")
         out = os.path.join(outdir, f"{name}.lean")
@@ -850,6 +1226,51 @@ def generate(repo, outdir):
         report[name] = {'module': mod, 'status': status, 'deps': deps,
                         'sha256': hashlib.sha256(text.encode()).hexdigest(),
                         'changed': old is not None and old != text}
+        if os.path.isabs(mod) and mod in srcs:     # a dependency outside the repository: pin what was translated
+            report[name]['source_sha256'] = hashlib.sha256(srcs[mod].encode()).hexdigest()
+    # ---- classes: one file per class, one definition (or body + wrapper) per method
+    for mod, cname, prefix in class_entries:
+        lname = f"{prefix}_{cname}"
+        path = os.path.join(repo, 'plotink', mod)
+        status, deps, codes = 'ok', [], []
+        try:
+            tree = ast.parse(open(path).read())
+        except (SyntaxError, OSError) as ex:
+            tree = None
+            status = f"parse error: {ex}"
+        cd = None
+        if tree is not None:
+            cd = next((n for n in tree.body if isinstance(n, ast.ClassDef) and n.name == cname), None)
+            if cd is None:
+                status = 'missing'
+        if cd is None:
+            codes = [f"def {lname}_missing : Bool := true"]
+        else:
+            ci = ClassInfo(cd, prefix)
+            consts = {}
+            methods = [m for m in ci.methods.values() if m.name != '__init__'] + \
+                [m for m in ci.methods.values() if m.name == '__init__']
+            for m in methods:
+                tr = FnTr(m, known, consts, cls=ci, classes={ci.lname: ci})
+                try:
+                    codes.append(tr.translate())
+                    ci.meth_info[m.name] = {'fuel': tr.has_fuel, 'mutated': list(tr.mutated)}
+                    deps += [d for d in tr.deps if d not in deps]
+                except Unsupported as ex:
+                    status = (status + '; ' if status != 'ok' else '') + f"unsupported {m.name}: {ex}"
+                    codes.append(FnTr(m, known, consts, cls=ci, classes={ci.lname: ci}).stub())
+        imports = "import Plotink.Py\n" + "".join(f"import Plotink.Gen.{d}\n" for d in deps)
+        text = (f"-- GENERATED by translator/pynum2lean.py from plotink/{mod}:class {cname}. Do not edit.\n"
+                + imports + "namespace Plotink\nnamespace Gen\nset_option linter.unusedVariables false\n\n"
+                + "\n\n".join(codes) + "\n\nend Gen\nend Plotink\n")
+        out = os.path.join(outdir, f"{lname}.lean")
+        old = open(out).read() if os.path.exists(out) else None
+        if old != text:
+            with open(out, 'w') as f:
+                f.write(text)
+        report[lname] = {'module': mod, 'class': cname, 'status': status, 'deps': deps,
+                         'sha256': hashlib.sha256(text.encode()).hexdigest(),
+                         'changed': old is not None and old != text}
     with open(os.path.join(outdir, 'report.json'), 'w') as f:
         json.dump(report, f, indent=1, sort_keys=True)
     return report
